@@ -480,6 +480,17 @@ M("c02-length-on-failure", "C02", "json_object.c",
   "\t\tjso->_to_json_string(jso, jso->_pb, 0, flags);\n\t\ts = (size_t)jso->_pb->bpos;\n\t\tr = jso->_pb->buf;", needle="C02.R3")
 M("c02-uint-signed-format", "C02", "json_object.c",
   "snprintf(sbuf, sizeof(sbuf), \"%\" PRIu64, JC_INT(jso)->cint.c_uint64);", "snprintf(sbuf, sizeof(sbuf), \"%\" PRId64, JC_INT(jso)->cint.c_uint64);", needle="C02.R4")
+M("c02-dblmax-as-infinity", "C02", "json_object.c",
+  "\telse if (isinf(jsodbl->c_double))\n\t{\n\t\tif (jsodbl->c_double > 0)",
+  "\telse if (jsodbl->c_double >= 1.7976931348623157e308 || jsodbl->c_double <= -1.7976931348623157e308)\n\t{\n\t\tif (jsodbl->c_double > 0)",
+  needle="C02.R5")
+M("c02-inf-sign-swapped", "C02", "json_object.c",
+  "\t\tif (jsodbl->c_double > 0)\n\t\t\tsize = snprintf(buf, sizeof(buf), \"Infinity\");",
+  "\t\tif (jsodbl->c_double < 0)\n\t\t\tsize = snprintf(buf, sizeof(buf), \"Infinity\");",
+  needle="C02.R5")
+M("c02-benign-isinf-by-compare", "C02", "json_object.c",
+  "\telse if (isinf(jsodbl->c_double))\n",
+  "\telse if (jsodbl->c_double == HUGE_VAL || jsodbl->c_double == -HUGE_VAL)\n", expect="silent")
 M("c02-benign-escape-reorder", "C02", "json_object.c",
   "\t\t\tif (c == '\\b')\n\t\t\t\tprintbuf_memappend(pb, \"\\\\b\", 2);\n\t\t\telse if (c == '\\n')\n\t\t\t\tprintbuf_memappend(pb, \"\\\\n\", 2);",
   "\t\t\tif (c == '\\n')\n\t\t\t\tprintbuf_memappend(pb, \"\\\\n\", 2);\n\t\t\telse if (c == '\\b')\n\t\t\t\tprintbuf_memappend(pb, \"\\\\b\", 2);", expect="silent")
